@@ -29,6 +29,10 @@ def run(ctx):
                 "moving them out of their Cell (replace(.., 0)). E-CANON.swap: level_swap releases edges to an old child "
                 "before unlinking it.")
     efreelist.run(ctx, F)
+    ctx.explain("E-FREELIST.count: the shared node count that arms the automatic gc: a failed allocation undoes its +1, an "
+                "adjusted thread-local delta is written back or published on every path.")
+    n = efreelist.check_count_bookkeeping(ctx, F)
+    ctx.floor("E-FREELIST.count", "node-count bookkeeping obligations", n, 3)
     ctx.explain("E-EVENT.gc-order: Manager::gc sweeps every inner-node level before the terminal table (terminals "
                 "referenced only by dead inner nodes become unreferenced during the level sweep).")
     eevent.check_gc_sweep_order(ctx, F, "oxidd_manager_index")
